@@ -6,8 +6,8 @@
    tokenization (ListLaw), and blocks separated by a blank line are tokenized independently
    (Independence). *)
 From Coq Require Import ZArith List Bool Lia.
-From Mistletoe Require Import Base.Sx Base.PyStr Base.PyText Gen.GenConfig Model.CoreTokens Model.Block
-     Proofs.BlockProgress Proofs.Independence Proofs.QuoteLaw Proofs.ListLaw Proofs.FenceLaw Proofs.Prose Proofs.PlainProse Spec.Fragment.
+From Mistletoe Require Import Base.Sx Base.PyStr Base.PyText Gen.GenRegex Gen.GenConfig Re.ReMatch Model.CoreTokens Model.Block Proofs.ReFirst
+     Proofs.BlockProgress Proofs.Independence Proofs.QuoteLaw Proofs.ListLaw Proofs.ListLaw2 Proofs.FenceLaw Proofs.Prose Proofs.PlainProse Spec.Fragment.
 Import ListNotations.
 Local Open Scope Z_scope.
 
@@ -95,11 +95,11 @@ Definition good_b (ls : list sline) : bool :=
   end.
 
 Definition is_item (t : ftree) : bool := match t with FItem _ _ _ => true | _ => false end.
-Fixpoint seq_ok_b (ts : list ftree) : bool :=      (* a list may only be the last of its siblings *)
+Fixpoint seq_ok_b (ts : list ftree) : bool :=      (* two lists are never neighbours (they would be one list, or their blank line would be the first one's) *)
   match ts with
   | [] => false
   | [_] => true
-  | t :: r => negb (is_item t) && seq_ok_b r
+  | t :: ((t2 :: _) as r) => negb (is_item t && is_item t2) && seq_ok_b r
   end.
 
 Definition item_first_line (mk : marker) (pad : nat) (inner : list sline) : str :=
@@ -110,7 +110,8 @@ Definition item_first_line (mk : marker) (pad : nat) (inner : list sline) : str 
 
 Fixpoint wf_b (t : ftree) : bool :=
   match t with
-  | FPara c body => plain_line_b (c :: body) && negb (mem 9 (c :: body))
+  | FPara c body => plain_line_b (c :: body) && negb (mem 9 (c :: body)) &&
+                    nomatch fl_block_token_ListItem_pattern re_block_token_ListItem_pattern c
   | FFence ch n content =>
     ((ch =? 96) || (ch =? 126)) && Nat.leb 3 n && forallb sline_okb content && forallb notab_b content &&
     forallb (fun l => match l with SBlank => true | SLine _ c _ => negb (c =? ch) end) content
@@ -186,10 +187,17 @@ Section Main.
     tokenize_block types (S f) (text_of (spell t)) ln st = ([pre_of ln t], false, st_after st t).
   Definition Q (f : nat) : Prop := forall ts ln st, seq_ok_b ts = true -> forallb wf_b ts = true -> Forall (fun t => (depth t <= f)%nat) ts ->
     tokenize_block types (S f) (text_of (join_blank (map spell ts))) ln st = (pre_seq ln ts, 1 <? Z.of_nat (length ts), st_seq st ts).
-  (* a block other than a list, as the reader sees it on its own and when a blank line and more text follow *)
-  Definition C (f : nat) : Prop := forall t ln st, is_item t = false -> wf_b t = true -> (depth t <= f)%nat ->
+  (* what may follow a block after a blank line: anything, except that after a list it must be a line that is neither a
+     continuation of the item nor a list marker *)
+  Definition follower_ok (t : ftree) (B : list str) : Prop :=
+    is_item t = false \/
+    exists l2 more, B = l2 :: more /\ (forall p, 0 < p -> parse_continuation l2 p = None) /\ parse_marker l2 = None.
+
+  (* a block as the reader sees it when a blank line and more text follow *)
+  Definition C (f : nat) : Prop := forall t ln st, wf_b t = true -> (depth t <= f)%nat ->
     text_of (spell t) <> [] /\
-    forall B, try_types types (tokenize_block types f) types (text_of (spell t) ++ NL :: B) ln st =
+    forall B, follower_ok t B ->
+              try_types types (tokenize_block types f) types (text_of (spell t) ++ NL :: B) ln st =
               Some (pre_of ln t, length (text_of (spell t)), st_after st t).
 
   Lemma depth_children t ts f : In t ts -> (S (fold_right (fun t m => Nat.max (depth t) m) 0%nat ts) <= S f)%nat -> (depth t <= f)%nat.
@@ -204,7 +212,7 @@ Section Main.
   Lemma para_try rec c body ln st : wf_b (FPara c body) = true ->
     try_types types rec types (text_of (spell (FPara c body))) ln st = Some (pre_of ln (FPara c body), 1%nat, st).
   Proof.
-    intros Hw. cbn [wf_b] in Hw. apply andb_true_iff in Hw as [Hw _]. apply plain_line_reflect in Hw.
+    intros Hw. cbn [wf_b] in Hw. apply andb_true_iff in Hw as [Hw _]. apply andb_true_iff in Hw as [Hw _]. apply plain_line_reflect in Hw.
     cbn [spell text_of map render_line pre_of]. unfold line_of. cbn [repeat app].
     change (c :: body ++ [10]) with ((c :: body) ++ [10]).
     apply (try_types_paragraph types rec (c :: body) ln st Hw types Hp).
@@ -275,18 +283,55 @@ Section Main.
     destruct (T1 _ _ _ T eq_refl) as (E & _ & _). exact E.
   Qed.
 
+  Lemma nonspace_first_ok c : nonspace c = true -> first_ok c = true.
+  Proof.
+    intros H. unfold nonspace in H. apply negb_true_iff in H. unfold first_ok. apply negb_true_iff.
+    destruct (c =? 32) eqn:E1; [apply Z.eqb_eq in E1; subst c; vm_compute in H; discriminate|].
+    destruct (c =? 9) eqn:E2; [apply Z.eqb_eq in E2; subst c; vm_compute in H; discriminate|].
+    destruct (c =? 10) eqn:E3; [apply Z.eqb_eq in E3; subst c; vm_compute in H; discriminate|]. reflexivity.
+  Qed.
+
+  (* the first line of a block that is not a list: not a list marker, and (starting in column 0) not a continuation line *)
+  Lemma first_line_follower t : is_item t = false -> wf_b t = true ->
+    exists l2 more, text_of (spell t) = l2 :: more /\ (forall p, 0 < p -> parse_continuation l2 p = None) /\ parse_marker l2 = None.
+  Proof.
+    intros Hi Hw. destruct t as [c body|ch n content|ts|mk pad ts]; [| | |discriminate].
+    - cbn [wf_b] in Hw. apply andb_true_iff in Hw as [Hw Hnm]. apply andb_true_iff in Hw as [Hw _]. apply plain_line_reflect in Hw.
+      destruct Hw as (Hpl & Hf1 & _ & _). cbn [hd] in Hf1.
+      assert (Hc : first_ok c = true).
+      { apply nonspace_first_ok. unfold nonspace. change (cat_match CatSpace c) with (is_space_c c). rewrite (plain_first_not_space c Hf1). reflexivity. }
+      assert (Hb : mem 10 body = false).
+      { pose proof (plain_no 10 (c :: body) eq_refl Hpl) as M. unfold mem in M. cbn [existsb] in M. apply orb_false_iff in M. tauto. }
+      exists (line_of 0 c body), []. split; [reflexivity|]. split.
+      + intros p Hp0. apply parse_continuation_short; assumption.
+      + unfold parse_marker, line_of. cbn [repeat app]. rewrite rmatch_first by exact Hnm. reflexivity.
+    - destruct (fence_wf ch n content Hw) as ((Hch & Hn) & _ & _). cbn [spell text_of map].
+      eexists. eexists. split; [reflexivity|]. cbn [render_line]. split.
+      + intros p Hp0. apply parse_continuation_short; [destruct Hch as [->| ->]; reflexivity| |exact Hp0].
+        apply mem_repeat. destruct Hch as [->| ->]; discriminate.
+      + unfold parse_marker, line_of. cbn [repeat app]. rewrite rmatch_first; [reflexivity|]. destruct Hch as [->| ->]; vm_compute; reflexivity.
+    - cbn [wf_b] in Hw. repeat rewrite andb_true_iff in Hw. destruct Hw as [[_ _] Hg].
+      destruct (good_lines _ Hg) as (c0 & body0 & rest & El & Hc0 & Hb0 & _ & _ & _ & _).
+      cbn [spell]. rewrite El. cbn [map quote_s text_of render_line repeat app].
+      eexists. eexists. split; [reflexivity|]. split.
+      + intros p Hp0. apply parse_continuation_short; [reflexivity| |exact Hp0].
+        pose proof (nonspace_first_ok c0 Hc0) as F. unfold first_ok in F. apply negb_true_iff in F. apply orb_false_iff in F as [_ F10].
+        unfold mem in *. cbn [existsb]. rewrite Z.eqb_sym in F10. rewrite F10, Hb0. reflexivity.
+      + unfold line_of. cbn [repeat app]. apply marker_gt.
+  Qed.
+
   Lemma C_from f : (forall f', f = S f' -> Q f') -> C f.
   Proof.
-    intros HQ t ln st Hi Hw Hd. destruct t as [c body|ch n content|ts|mk pad ts]; [| | |discriminate].
-    - split; [discriminate|]. intros B. rewrite para_try_app by exact Hw. reflexivity.
+    intros HQ t ln st Hw Hd. destruct t as [c body|ch n content|ts|mk pad ts].
+    - split; [discriminate|]. intros B _. rewrite para_try_app by exact Hw. reflexivity.
     - split; [destruct (fence_wf ch n content Hw) as ((_ & H3) & _); rewrite fence_text by lia; discriminate|].
-      intros B. rewrite fence_try by exact Hw. reflexivity.
+      intros B _. rewrite fence_try by exact Hw. reflexivity.
     - destruct f as [|f']; [cbn [depth] in Hd; lia|]. specialize (HQ f' eq_refl).
       cbn [wf_b] in Hw. repeat rewrite andb_true_iff in Hw. destruct Hw as [[Hs Hall] Hg].
       destruct (good_lines _ Hg) as (c0 & body0 & rest & El & _ & _ & _ & _ & Hok & Hne).
       cbn [spell]. rewrite text_quote. remember (text_of (join_blank (map spell ts))) as inner eqn:Ei.
       destruct inner as [|l ls]; [contradiction|].
-      split; [discriminate|]. intros B.
+      split; [discriminate|]. intros B _.
       pose proof (try_types_quote types (tokenize_block types (S f')) true l ls ln st types Hq Hok) as T.
       assert (HN : tokenize_block types (S f') (l :: ls) ln (mkPs false) =
                    (pre_seq ln ts, 1 <? Z.of_nat (length ts), st_seq (mkPs false) ts))
@@ -296,6 +341,20 @@ Section Main.
       destruct (T1 _ _ _ T eq_refl) as (E & _ & _).
       change ((qline true l :: map (qline true) ls) ++ NL :: B) with (qline true l :: map (qline true) ls ++ NL :: B).
       rewrite E. rewrite pre_of_quote. cbn [st_after length]. rewrite map_length. reflexivity.
+    - destruct f as [|f']; [cbn [depth] in Hd; lia|]. specialize (HQ f' eq_refl).
+      cbn [wf_b] in Hw. repeat rewrite andb_true_iff in Hw. destruct Hw as [[[[[[Hmk Hp1] Hp4] Hs] Hall] Hg] Hth].
+      apply marker_ok_reflect in Hmk. apply Nat.leb_le in Hp1, Hp4. apply negb_true_iff in Hth.
+      destruct (good_lines _ Hg) as (c0 & body0 & rest & El & Hc0 & Hb0 & Hrest & Hlast & _ & _).
+      cbn [spell]. rewrite El in *. rewrite text_item by exact Hmk. cbn [item_first_line] in Hth.
+      split; [discriminate|]. intros B [Hfo|(l2 & more & -> & Hcont & Hmark)]; [discriminate|].
+      assert (Htail : tail_ok (length (marker_str mk) + pad) (NL :: l2 :: more)).
+      { right. exists l2, more. split; [reflexivity|]. split; [apply Hcont; lia|exact Hmark]. }
+      assert (Hpad : (1 <= pad <= 4)%nat) by (split; assumption).
+      rewrite try_types_list_tail by assumption.
+      rewrite start_read_list_tail by assumption.
+      change (map render_line (SLine 0 c0 body0 :: rest)) with (text_of (SLine 0 c0 body0 :: rest)). rewrite <- El.
+      rewrite (HQ ts ln st Hs Hall (children_depth ts f' Hd)).
+      rewrite pre_of_item, pre_seq_length. unfold nlines. rewrite andb_diag. cbn [length st_after]. rewrite map_length. reflexivity.
   Qed.
 
   Lemma Q_from f : P f -> C f -> Q f.
@@ -306,10 +365,16 @@ Section Main.
     - cbn [map join_blank flat_map]. rewrite app_nil_r. rewrite (HP t1 ln st Hw1 Hd1). reflexivity.
     - cbn [seq_ok_b] in Hs. apply andb_true_iff in Hs as [Hi Hsr]. apply negb_true_iff in Hi.
       change (map spell (t1 :: t2 :: r)) with (spell t1 :: spell t2 :: map spell r). rewrite text_join.
-      destruct (HC t1 ln st Hi Hw1 Hd1) as (Hne & Ht).
+      destruct (HC t1 ln st Hw1 Hd1) as (Hne & Ht).
+      assert (Hfol : follower_ok t1 (text_of (join_blank (spell t2 :: map spell r)))).
+      { destruct (is_item t1) eqn:E1; [|left; exact E1]. right.
+        cbn [andb] in Hi. cbn [forallb] in Hallr. apply andb_true_iff in Hallr as [Hw2 _].
+        destruct (first_line_follower t2 Hi Hw2) as (l2 & more & E2 & Hc2 & Hm2).
+        exists l2, (more ++ text_of (flat_map (fun y => SBlank :: y) (map spell r))). split; [|split; assumption].
+        unfold join_blank, text_of in *. rewrite map_app, E2. reflexivity. }
       specialize (IH (ln + nlines (length (text_of (spell t1))) + 1) (st_after st t1) Hsr Hallr Hdr).
-      change (spell t2 :: map spell r) with (map spell (t2 :: r)).
-      rewrite (seq_step types f Hnb _ _ ln st _ _ _ _ _ Hne (Ht _) IH).
+      change (spell t2 :: map spell r) with (map spell (t2 :: r)) in *.
+      rewrite (seq_step types f Hnb _ _ ln st _ _ _ _ _ Hne (Ht _ Hfol) IH).
       cbn [pre_seq length st_seq fold_left].
       assert (H : nlines (length (text_of (spell t1))) = height t1) by (unfold height, text_of, nlines; rewrite map_length; reflexivity).
       rewrite H. assert (1 <? Z.of_nat (S (S (length r))) = true) as -> by (apply Z.ltb_lt; lia). reflexivity.
@@ -374,9 +439,9 @@ Qed.
 (* non-vacuity: a fence inside a list inside a quote inside a list ... *)
 Example fragment_instance :
   let fence := FFence 96 3 [SLine 2 120 $" = 1"; SBlank; SLine 0 35 $" not a heading"] in
-  let t1 := FItem (MBullet 45) 2 [FPara 97 $"b"; FQuote [FPara 99 $"d"; FItem (MOrdered $"12" 41) 1 [FPara 101 []; fence]]; FPara 102 []] in
+  let t1 := FItem (MBullet 45) 2 [FPara 97 $"b"; FQuote [FPara 99 $"d"; FItem (MOrdered $"12" 41) 1 [FPara 101 []; fence]; FPara 103 []]; FPara 102 []] in
   let t2 := FQuote [FQuote [FPara 97 []]; fence; FPara 98 []; t1] in
-  wf_b t2 = true /\ depth t2 = 4%nat /\ length (spell t2) = 23%nat /\
+  wf_b t2 = true /\ depth t2 = 4%nat /\ length (spell t2) = 25%nat /\
   text_of (spell (FItem (MOrdered $"12" 41) 1 [FPara 101 []; fence])) =
     [ $"12) e" ++ [10]; [10]; $"    ```" ++ [10]; $"      x = 1" ++ [10]; [10]; $"    # not a heading" ++ [10]; $"    ```" ++ [10] ].
 Proof. vm_compute. repeat split; reflexivity. Qed.
@@ -407,7 +472,7 @@ Section Tokens.
   Proof.
     induction f as [|f IH]; intros t ln Hd Hw.
     - destruct t as [c body|ch n content|ts|mk pad ts]; [|reflexivity|cbn [depth] in Hd; lia|cbn [depth] in Hd; lia].
-      cbn [wf_b] in Hw. apply andb_true_iff in Hw as [Hw _]. apply plain_line_reflect in Hw.
+      cbn [wf_b] in Hw. apply andb_true_iff in Hw as [Hw _]. apply andb_true_iff in Hw as [Hw _]. apply plain_line_reflect in Hw.
       cbn [pre_of build map concat tok_of]. rewrite app_nil_r.
       change (c :: body ++ [10]) with ((c :: body) ++ [10]).
       destruct (strip_line (c :: body) Hw) as [S _]. rewrite S.
@@ -418,7 +483,7 @@ Section Tokens.
         inversion Hds; subst. cbn [forallb] in Hws. apply andb_true_iff in Hws as [Hw1 Hwr].
         cbn [pre_seq flat_map map]. rewrite (IH t0 ln0) by assumption. cbn [app]. f_equal. apply IHr; assumption. }
       destruct t as [c body|ch n content|ts|mk pad ts]; [|reflexivity| |].
-      + cbn [wf_b] in Hw. apply andb_true_iff in Hw as [Hw _]. apply plain_line_reflect in Hw.
+      + cbn [wf_b] in Hw. apply andb_true_iff in Hw as [Hw _]. apply andb_true_iff in Hw as [Hw _]. apply plain_line_reflect in Hw.
         cbn [pre_of build map concat tok_of]. rewrite app_nil_r.
         change (c :: body ++ [10]) with ((c :: body) ++ [10]).
         destruct (strip_line (c :: body) Hw) as [S _]. rewrite S.
